@@ -372,4 +372,20 @@ def constantOfShapeInfer (value : Option Int) (shape : List Sym) : Except Err ST
   | some _, [e] => .ok (.shape [e])
   | _, es => .ok (.shape es)
 
+/-- `Expand(data, shape)` when the `shape` input has values: the rule is `BinaryOp` applied to the
+data and a tensor of shape `sizes` (rten-shape-inference/src/ops/layout.rs). -/
+def expandInfer (data : STn) (sizes : List Sym) : Except Err STn := binaryShape data (.shape sizes)
+
+/-- `Neg`: value-carrying inputs are negated element-wise (`-item`, not constant-folded),
+otherwise `UnaryOp` (the shape is copied). -/
+def negInfer (a : STn) : STn :=
+  match a with
+  | .scalar e => .scalar (.neg e)
+  | .vector es => .vector (es.map Sym.neg)
+  | .shape ds => .shape ds
+  | .unknown => .unknown
+
+/-- `Identity`: the input, unchanged. -/
+def identityInfer (a : STn) : STn := a
+
 end RtenVerif.ShapeInfer
